@@ -1800,6 +1800,11 @@ def concretise(case, rnd, root):
             text += "const Z = 1 << -1;\nconst Z2 = 8 >> (LIMIT - 5);\n"
         elif fault == "huge_shift":
             text += "const Z = 1 << 4000;\nenum ZE { ZE_a = 1 << 70 };\n"
+        elif fault == "huge_literal":
+            # literals / values beyond the interpreter's integer <-> text conversion limit (4300 digits since 3.11)
+            text += variant(["const Z = %s;\n" % ("9" * 5000),
+                             "const Z = " + "*".join(["(1<<1024)"] * 15) + ";\n",
+                             "const Z = 0x%s;\n" % ("f" * 5000)])
         elif fault == "huge_array":
             text += "struct Z { u8 a[1 << 40]; u64 b<1 << 35>; };\n"
         elif fault == "deep_parentheses":
@@ -1899,6 +1904,9 @@ def concretise(case, rnd, root):
                 '<constant name="ZK" value="1/0"/></defs>',
                 '<constant name="ZZ" value="0"/><struct name="Z"><member name="a" type="u8"><dimension size="4/ZZ"/></member></struct></defs>',
                 '<enum name="ZE"><enum-member name="ZE_a" value="5 / (2 - 2)"/></enum></defs>']))
+        elif fault == "huge_literal":
+            text = text.replace("</defs>", '<constant name="ZK" value="%s"/><struct name="Z"><member name="a" type="u8">'
+                                           '<dimension size="ZK"/></member></struct></defs>' % ("9" * 5000))
         elif fault == "malformed_operator_call":
             # the operator calls other_schemas.rst documents for isar values, not closed / with a wrong argument count
             text = text.replace("</defs>", variant([
@@ -2037,7 +2045,7 @@ def c13(tier, replay):
                                                 reps if c["fault"] in ("random_text", "illegal_char", "empty_file", "division_by_zero",
                                                                         "size_names_type", "non_utf8", "absurd_shift", "negative_shift_constant",
                                                                         "empty_member_name", "deep_typedef_chain", "bad_dimension") else
-                                                max(reps, 6) if c["fault"] == "malformed_operator_call" else 1)]
+                                                max(reps, 6) if c["fault"] == "malformed_operator_call" else 3 if c["fault"] == "huge_literal" else 1)]
     jobs = _chunks(allcases, NCPU)
     with ProcessPoolExecutor(max_workers=NCPU) as ex:
         results = list(ex.map(termination_worker, jobs, range(len(jobs)),
